@@ -33,7 +33,8 @@ Report(r) ==
                                nontrivial |-> IF \E c \in DOMAIN r.s : r.e # r.s THEN 1 ELSE 0, mism |-> Cardinality(mm)]))
 
 VARIABLE i
-Init == i \in 1..Min2(NCHAINS, NObs)
-Next == i + NCHAINS <= NObs /\ i' = i + NCHAINS
-Judged == Report(Obs[i])
+\* (the first state judges nothing: TLC evaluates initial states on a thread with a small stack)
+Init == i = 0
+Next == IF i = 0 THEN i' \in 1..Min2(NCHAINS, NObs) ELSE i + NCHAINS <= NObs /\ i' = i + NCHAINS
+Judged == i = 0 \/ Report(Obs[i])
 =============================================================================
